@@ -152,10 +152,12 @@ CHECKS = {
    note=COMMON_NOTE + "Cryptographic residue: that a changed digest is not matched by the old signature rests on ECDSA/SHA-256. verify() trusts the input's own redeem script "
         "(the previous output is not part of a transaction); the independent verifier is given the previous output script and amount, as a node would have them (see F25 under C10)."),
  'C14': dict(
-   technique='Lean 4 theorems (entropy <-> word-index round trip on bit lists, unknown word / wrong length / wrong checksum rejected) + reference PBKDF2/SHA-256 and exhaustive word-list comparison against the code',
+   technique='Lean 4 theorems (entropy <-> word-index round trip on bit lists in both directions, unknown word / wrong length / wrong checksum rejected, checksum-only substitutions rejected) + reference PBKDF2/SHA-256 and exhaustive word-list comparison against the code',
    text=("Proved in Lean for any checksum hash: for every entropy of 16/20/24/28/32 bytes (leading zeros, all ones included) the word indices "
          "convert back to that entropy (bit-regrouping lemmas: values -> bits -> 11-bit groups -> bits -> bytes); an index >= 2048 (unknown word) or a "
-         "wrong number of words is rejected; whatever is accepted carries the checksum bits of the entropy it yields. The same lemmas give the "
+         "wrong number of words is rejected; whatever is accepted carries the checksum bits of the entropy it yields and IS the sentence of that entropy "
+         "(accepted sentences and entropies correspond one to one: two accepted sentences with one entropy are equal; a substitution that leaves the "
+         "entropy bits alone is always rejected). The same lemmas give the "
          "Bech32 8->5->8 round trip used under C11. Word lists enter as hypotheses and are compared entry by entry (9 x 2048) with a frozen "
          "reference copy on every run. The model (SHA-256, PBKDF2-HMAC-SHA512 reference code) is compared with Mnemonic.to_mnemonic / to_entropy / "
          "to_seed in all nine languages on structured entropies, ASCII and NFKD-sensitive unicode passphrases and single-word substitutions "
